@@ -93,7 +93,19 @@ fn parse_list<T>(s: &str, f: impl Fn(&str) -> R<T>) -> R<Vec<T>> {
 /// Deserialize "a value of the same type as `_like`": lets us reach types the
 /// crate does not re-export (package, statistics, transaction list).
 fn de_like<T: DeserializeOwned>(_like: &T, text: &str) -> Result<T, serde_json::Error> {
-    serde_json::from_str::<T>(text)
+    de::<T>(text)
+}
+
+/// Which serde_json entry point `de` uses: 0 = from_str, 1 = from_slice, 2 = from_reader, 3 = from_value (via a parsed Value).
+static VIA: std::sync::atomic::AtomicU8 = std::sync::atomic::AtomicU8::new(0);
+
+fn de<T: DeserializeOwned>(text: &str) -> Result<T, serde_json::Error> {
+    match VIA.load(std::sync::atomic::Ordering::Relaxed) {
+        1 => serde_json::from_slice::<T>(text.as_bytes()),
+        2 => serde_json::from_reader::<_, T>(std::io::Cursor::new(text.as_bytes().to_vec())),
+        3 => serde_json::from_str::<serde_json::Value>(text).and_then(serde_json::from_value::<T>),
+        _ => serde_json::from_str::<T>(text),
+    }
 }
 
 fn str_of_update(u: &pricelevel::OrderUpdate) -> String {
@@ -331,24 +343,24 @@ fn ok<T, E>(r: Result<T, E>, f: impl Fn(&T) -> String) -> R<String> {
 
 fn of_json(ty: &str, text: &str) -> R<String> {
     match ty {
-        "side" => ok(serde_json::from_str::<Side>(text), |v| str_of_side(*v).to_string()),
-        "tif" => ok(serde_json::from_str::<TimeInForce>(text), |v| str_of_tif(*v)),
-        "peg" => ok(serde_json::from_str::<pricelevel::PegReferenceType>(text), |v| str_of_peg(*v).to_string()),
-        "oid" => ok(serde_json::from_str::<OrderId>(text), str_of_oid),
-        "order" => ok(serde_json::from_str::<Order>(text), str_of_order),
-        "update" => ok(serde_json::from_str::<pricelevel::OrderUpdate>(text), str_of_update),
-        "uuid" => ok(serde_json::from_str::<Uuid>(text), |u| u.as_u128().to_string()),
-        "tx" => ok(serde_json::from_str::<Transaction>(text), str_of_tx),
+        "side" => ok(de::<Side>(text), |v| str_of_side(*v).to_string()),
+        "tif" => ok(de::<TimeInForce>(text), |v| str_of_tif(*v)),
+        "peg" => ok(de::<pricelevel::PegReferenceType>(text), |v| str_of_peg(*v).to_string()),
+        "oid" => ok(de::<OrderId>(text), str_of_oid),
+        "order" => ok(de::<Order>(text), str_of_order),
+        "update" => ok(de::<pricelevel::OrderUpdate>(text), str_of_update),
+        "uuid" => ok(de::<Uuid>(text), |u| u.as_u128().to_string()),
+        "tx" => ok(de::<Transaction>(text), str_of_tx),
         "txlist" => {
             let r = MatchResult::new(OrderId::nil(), 0);
             ok(de_like(&r.transactions, text), |l| list_str(l.as_vec(), str_of_tx))
         }
-        "result" => ok(serde_json::from_str::<MatchResult>(text), str_of_result),
-        "data" => ok(serde_json::from_str::<PriceLevelData>(text), |d| {
+        "result" => ok(de::<MatchResult>(text), str_of_result),
+        "data" => ok(de::<PriceLevelData>(text), |d| {
             str_of_data(d.price, d.visible_quantity, d.hidden_quantity, d.order_count, &d.orders)
         }),
-        "level" => ok(serde_json::from_str::<PriceLevel>(text), str_of_level),
-        "snapshot" => ok(serde_json::from_str::<PriceLevelSnapshot>(text), str_of_snapshot),
+        "level" => ok(de::<PriceLevel>(text), str_of_level),
+        "snapshot" => ok(de::<PriceLevelSnapshot>(text), str_of_snapshot),
         "package" => {
             let like = fresh_package!();
             ok(de_like(&like, text), |p| str_of_package!(p))
@@ -370,7 +382,7 @@ fn of_json(ty: &str, text: &str) -> R<String> {
                 )
             })
         }
-        "queue" => ok(serde_json::from_str::<OrderQueue>(text), |q| {
+        "queue" => ok(de::<OrderQueue>(text), |q| {
             let mut os: Vec<Order> = q.to_vec().iter().map(|a| **a).collect();
             os.sort_by_key(|o| (o.timestamp(), str_of_oid(&o.id())));
             list_str(&os, str_of_order)
@@ -577,6 +589,16 @@ pub fn run() {
             ("TOJSON", 3) => catch_unwind(AssertUnwindSafe(|| to_json(p[1], p[2]))).unwrap_or_else(|_| Ok("panic".into())),
             ("OFJSON", 3) => match unhex(p[2]).and_then(|b| String::from_utf8(b).map_err(|_| "bad utf8".to_string())) {
                 Ok(t) => catch_unwind(AssertUnwindSafe(|| of_json(p[1], &t))).unwrap_or_else(|_| Ok("panic".into())),
+                Err(e) => Err(e),
+            },
+            ("OFJSONVIA", 4) => match unhex(p[3]).and_then(|b| String::from_utf8(b).map_err(|_| "bad utf8".to_string())) {
+                Ok(t) => {
+                    let via = match p[1] { "slice" => 1, "reader" => 2, "value" => 3, _ => 0 };
+                    VIA.store(via, std::sync::atomic::Ordering::Relaxed);
+                    let r = catch_unwind(AssertUnwindSafe(|| of_json(p[2], &t))).unwrap_or_else(|_| Ok("panic".into()));
+                    VIA.store(0, std::sync::atomic::Ordering::Relaxed);
+                    r
+                }
                 Err(e) => Err(e),
             },
             ("PKGNEW", 3) => catch_unwind(AssertUnwindSafe(|| pkg_new(p[1], p[2]))).unwrap_or_else(|_| Ok("panic".into())),
